@@ -663,12 +663,35 @@ func init() {
 					case 1:
 						d.Do(Ev{"op": "date.vars", "from": []int{}, "to": []int{}, "st": 1})
 					}
-					for _, p := range win {
-						d.Do(Ev{"op": "date.fcontains", "i": 1, "p": p, "st": 1})
+					// the order of the questions varies from filter to filter (what a fresh filter is asked
+					// first must not matter); the first two questions are asked again at the end
+					for j := range win {
+						d.Do(Ev{"op": "date.fcontains", "i": 1, "p": win[(j+k)%len(win)], "st": 1})
 					}
+					d.Do(Ev{"op": "date.fcontains", "i": 1, "p": win[k%len(win)], "st": 1})
+					d.Do(Ev{"op": "date.fcontains", "i": 1, "p": win[(k+1)%len(win)], "st": 1})
 				}
 				d.S.Boundary()
 			}
+		}
+		// what a fresh filter is asked first: dates a zero-initialised field would hold or that mark
+		// an epoch, as the very first question to two-sided and one-sided filters around them
+		pivots := [][]int{{1, 1, 1}, {0, 1, 1}, {1970, 1, 1}, {2000, 1, 1}, {0, 12, 31}, {1, 1, 2}}
+		for pi, pv := range pivots {
+			if !d.Mine(pi) {
+				continue
+			}
+			before, after := []int{pv[0] - 1, 6, 15}, []int{pv[0] + 1, 6, 15}
+			for _, ft := range [][2][]int{{before, after}, {pv, pv}, {pv, after}, {before, pv}, {before, {}}, {{}, after}, {after, {}}, {{}, before}} {
+				d.Do(Ev{"op": "date.freset", "st": 1})
+				d.Do(Ev{"op": "date.vars", "from": ft[0], "to": ft[1], "st": 1})
+				if e := d.Do(Ev{"op": "date.fbuild", "same": false, "st": 1}); e["ok"] == true {
+					for _, q := range [][]int{pv, pv, before, pv, after, pv} {
+						d.Do(Ev{"op": "date.fcontains", "i": 1, "p": q, "st": 1})
+					}
+				}
+			}
+			d.S.Boundary()
 		}
 		// seeded random triples over 0000..9999 with several filters alive at once
 		nr := 200
